@@ -194,8 +194,13 @@ func legalName(r *rand.Rand, maxLen int) []byte {
 				b[i] = '_'
 			}
 		}
-		if r.Intn(12) == 0 {
+		switch r.Intn(12) {
+		case 0:
 			b[0] = '\n' // a leading line feed: legal in a file name, awkward for YAML
+		case 1, 2:
+			b[0] = '.' // a hidden file
+		case 3:
+			b[0] = "-~# *"[r.Intn(5)]
 		}
 		s := string(b)
 		if s == "." || s == ".." {
